@@ -89,6 +89,20 @@ def stream (evs : List Ev) : List Ev := evs.filter (fun e => scannerCases.contai
     an unknown `<Node>` must not reach the node decoder) -/
 theorem scanner_dispatch_exact : scannerSwitchTags = ["se.Name.Local"] := by decide
 
+/-- **unknown elements are skipped as a whole, by both decoders**: below the document element the scanner descends
+    only into the containers of osmChange (`create`, `modify`, `delete`, the block fields of `Change`) and of augmented
+    diffs (`action`, `old`, `new`, what `Diff` and the action decoder read); any other element it does not decode is
+    skipped with everything in it (`Decoder.Skip`), as `xml.Unmarshal` does for a child no field matches — and the
+    diff action decoder does the same for a child it does not know -/
+theorem unknown_elements_skipped :
+    scannerContainerCases = ["create", "modify", "delete", "action", "old", "new"] ∧
+    (["create", "modify", "delete"].all fun n => (decodableChildren "Change").contains n) = true ∧
+    (decodableChildren "Diff").contains "action" = true ∧
+    (["old", "new"].all fun n => actionUnmarshalCases.contains n) = true ∧
+    scannerDefault = ["if !s.inDocument {", "s.inDocument = true", "continue Loop", "}",
+      "if err := s.decoder.Skip(); err != nil {", "s.err = err", "return false", "}", "continue Loop"] ∧
+    actionUnmarshalDefault = ["if err := d.Skip(); err != nil {", "return err", "}"] := by decide
+
 /-- the scanner dispatches on exactly the element names the `OSM` struct decodes -/
 theorem scanner_cases_eq_osm_fields : scannerCases = decodableChildren "OSM" := by decide
 
